@@ -1,3 +1,4 @@
--- This module serves as the root of the `AioslskVerif` library.
--- Import modules here that should be built as part of the library.
-import AioslskVerif.Basic
+-- Root of the library (written by tools/mk_manifest.py): the property theorems of every claimed check.
+import AioslskVerif.Props.C01
+import AioslskVerif.Props.C09
+import AioslskVerif.Props.C20
